@@ -303,7 +303,11 @@ def _ts_expected(v) -> bool:
 def section_timestamps(t: T, ctx: Ctx):
     zones = [datetime.timezone.utc, datetime.timezone(datetime.timedelta(hours=5, minutes=30)),
              datetime.timezone(datetime.timedelta(hours=-11)), datetime.timezone(datetime.timedelta(minutes=1)),
-             datetime.timezone(datetime.timedelta(seconds=2670)), datetime.timezone(datetime.timedelta(seconds=-1))]  # not whole minutes
+             datetime.timezone(datetime.timedelta(seconds=2670)), datetime.timezone(datetime.timedelta(seconds=-1)),  # not whole minutes
+             # not whole seconds (whole milliseconds, so that "local microsecond % 1000 == 0" still means a whole-ms instant):
+             # the local sub-second digits differ from those of the instant
+             datetime.timezone(datetime.timedelta(minutes=30, milliseconds=500)), datetime.timezone(datetime.timedelta(milliseconds=-1)),
+             datetime.timezone(datetime.timedelta(hours=-3, milliseconds=999))]
     anchors = [EPOCH, EPOCH + datetime.timedelta(seconds=1), datetime.datetime(2024, 1, 1, tzinfo=datetime.timezone.utc),
                datetime.datetime(2038, 1, 19, 3, 14, 7, tzinfo=datetime.timezone.utc),
                datetime.datetime.max.replace(tzinfo=datetime.timezone.utc, microsecond=0),
